@@ -97,12 +97,12 @@ class Universe:
     def ty_tok(self, t):
         if t == T.TScalar:
             return "S"
-        if t is T.TAnyVocab:
-            return "A"
         if isinstance(t, T.TAnyVocabOfDim):
             return f"D{t.dimensions}"
         if isinstance(t, T.TVocabulary):
             return f"V{self.vidx(t.vocab)}"
+        if t == T.TAnyVocab:          # equality, not identity: a copied pointer carries an equal type object
+            return "A"
         return f"?{t!r}"
 
 
@@ -127,7 +127,14 @@ def realise(U, tok, variant=""):
         name = "N" if "named" in variant else None
         zero = "zero" in variant
         if p[1] == "-":
-            return SemanticPointer(vec(n, zero=zero), algebra=ALGS[alg], name=name)
+            q = SemanticPointer(vec(n, zero=zero), algebra=ALGS[alg], name=name)
+            if "deepcopy" in variant:       # a copy is the same pointer: its type object is equal, not identical
+                import copy as _copy
+                q = _copy.deepcopy(q)
+            elif "pickled" in variant:
+                import pickle as _pickle
+                q = _pickle.loads(_pickle.dumps(q))
+            return q
         v = U.vocabs[int(p[1])]
         if "identity" in variant:
             return v["Identity"]     # the special elements a vocabulary hands out belong to it
@@ -532,7 +539,7 @@ def kinds_for(U, tier):
     if tier != "quick":
         bare += [(2, 4), (1, 9)]
     for j, (a, n) in enumerate(bare):
-        ks.append((f"P:-:{a}:{n}", ["", "named", "zero"] if j == 0 else ["", "zero"]))
+        ks.append((f"P:-:{a}:{n}", ["", "named", "zero", "deepcopy", "pickled"] if j == 0 else ["", "zero", "deepcopy"]))
     ks.append(("S:A", [""]))
     for i in range(len(U.spec)):
         if tier != "quick" or i < 3:
@@ -628,6 +635,37 @@ def run(ctx):
     U1 = Universe([(1, 0), (1, 0), (4, 0)])
     ck1 = Checker(ctx, U1)
     matrix(U1, ck1, kinds_small(U1), {-2: "dim1"})
+
+    # ---- 1a'. `>>` written INSIDE an action-selection block: the operands are checked where the statement is
+    # written (the connection itself is made later, when the block ends), exactly as outside a block
+    # (operands that carry a vocabulary or a dimensionality, and the bare array: the relations the statement names)
+    srcs_b = ["M:V0", "M:V1", "M:V2", "M:V3", "P:0:0:4", "P:1:0:4", "P:2:0:9", "P:-:0:4", "P:-:0:9", "S:V0", "S:V1",
+              "Y:V0", "Y:D4", "R:4"]
+    sinks_b = ["M:V0", "M:V1", "M:V2", "M:V3"]
+    for a in srcs_b:
+        for b in sinks_b:
+            plain = run_program(U, [a, b], ["rshift,0,1"])[0][0]
+            with warnings.catch_warnings():
+                warnings.simplefilter("ignore")
+                st_in = None
+                try:
+                    with spa.Network():
+                        world = [realise(U, a), realise(U, b)]
+                        with spa.ActionSelection():
+                            try:
+                                world[0] >> world[1]
+                                st_in = ("ok", "none")
+                            except Exception as e:  # noqa: BLE001
+                                st_in = ("err", family(e))
+                except Exception:  # noqa: BLE001  (a routing statement outside any action ends the block with an error)
+                    pass
+            case = {"objs": [a, b], "ops": ["rshift,0,1"], "inside": "with spa.ActionSelection()", "universe": U.tok()}
+            ctx.count(f"in-block {a} >> {b}", nontrivial=True, branch="rshift-in-block")
+            if plain[0] == "err" and plain[1] not in ("spatype", "type"):
+                continue     # refused by Nengo when the connection is made (sizes): inside a block that happens at its end
+            if st_in is None or st_in[0] != plain[0] or (st_in[0] == "err" and st_in[1] != plain[1]):
+                ctx.fail(dict(case, **{"class": "operands of >> not checked where written (inside a block)"}),
+                         list(st_in) if st_in else None, list(plain), where="rejected-when-written-in-block")
 
     # ---- 1b. unary operator / method, then a binary operation -------------------------------------------
     # a unary result belongs to what its operand belongs to: the second step is accepted/rejected exactly like the
